@@ -350,58 +350,80 @@ def workingSet (handlers : Array Handler) (heap : Heap) (it : Interactor) (varna
       (heap, ws ++ [(e, a')])
     else (heap, ws ++ [(e, a)])) (heap, [])
 
+/-- one iteration of `WorkingFrame.intercept`: state = (heap, events, reply so far) -/
+def interceptStep (handlers : Array Handler) (varname : String) (value : Option Val)
+    (st : Heap × List Event × Option Int) (p : El × Nat) : Heap × List Event × Option Int :=
+  match st, p with
+  | (heap, evs, reply), (e, a) =>
+    match heap[a]? with
+    | Option.none => (heap, evs, reply)
+    | some acc =>
+      match handlers[acc.handler]? with
+      | Option.none => (heap, evs, reply)
+      | some h =>
+        match h.intercept with
+        | Option.none => (heap, evs, reply)
+        | some ov =>
+          if !e.hasTags then (heap, evs, reply) else
+          -- tentative capture, snapshot, call, delete
+          match setCapture heap a e.capture
+              { names := [varname], values := (match value with | some v => [v] | Option.none => []) } with
+          | heap1 =>
+            match buildOf heap1 a with
+            | args =>
+              -- the `__check` wrapper: the user function runs only if the conditions hold
+              match (if passes h args then some (ov.answer args) else Option.none) with
+              | Option.none =>
+                (heap1.modify a fun acc => { acc with captures := dictDel acc.captures e.capture }, evs, reply)
+              | some ans =>
+                (heap1.modify a fun acc => { acc with captures := dictDel acc.captures e.capture },
+                 evs ++ [Event.intercept acc.handler args ans],
+                 match ans with | some r => some r | Option.none => reply)
+
+/-- `WorkingFrame.intercept`: the last answer that is not ABSENT wins -/
+def interceptAll (handlers : Array Handler) (heap : Heap) (ws : List (El × Nat)) (varname : String)
+    (value : Option Val) : Heap × List Event × Option Int :=
+  ws.foldl (interceptStep handlers varname value) (heap, [], Option.none)
+
+/-- what `interact` stores and returns, given the original value and the overriding reply -/
+def finalValue (varname : String) (value : Option Val) (reply : Option Int) (overridable : Bool) :
+    Except RErr Val :=
+  match reply, overridable with
+  | some _, false => .error (.overrideException varname)
+  | some r, true => .ok { v := r, oid := 0 }
+  | Option.none, _ =>
+    match value with
+    | some v => .ok v
+    | Option.none => .error (.pteraNameError varname)
+
+def logAll (handlers : Array Handler) (heap : Heap) (ws : List (El × Nat)) (varname : String) (v : Val) : Heap :=
+  ws.foldl (fun heap (p : El × Nat) => logValue handlers heap p.2 p.1 varname v) heap
+
+def triggerAll (handlers : Array Handler) (heap : Heap) (ws : List (El × Nat)) : List Event :=
+  ws.foldl (fun evs (p : El × Nat) =>
+    match heap[p.2]? with
+    | Option.none => evs
+    | some acc =>
+      match handlers[acc.handler]? with
+      | some h =>
+        if p.1.hasTags && h.hasTrigger then
+          if passes h (buildOf heap p.2) then evs ++ [Event.trigger acc.handler (buildOf heap p.2)] else evs
+        else evs
+      | Option.none => evs) []
+
 /-- `Interactor.interact` -/
 def interact (handlers : Array Handler) (heap : Heap) (it : Interactor)
     (varname : String) (cat : Cat) (value : Option Val) (overridable : Bool) :
     Heap × List Event × Except RErr Val :=
-  let (heap, ws) := workingSet handlers heap it varname cat
-  -- intercept: last non-ABSENT answer wins
-  let tentative : Val := value.getD { v := 0, oid := 0 }
-  let (heap, evs, reply) := ws.foldl (fun (st : Heap × List Event × Option Int) (p : El × Nat) =>
-    let (heap, evs, reply) := st
-    let (e, a) := p
-    match heap[a]? with
-    | Option.none => st
-    | some acc =>
-      match handlers[acc.handler]? with
-      | some h =>
-        match h.intercept with
-        | some ov =>
-          if !e.hasTags then st else
-          -- tentative capture, snapshot, call, delete
-          let heap1 := setCapture heap a e.capture { names := [varname], values := (match value with | some v => [v] | Option.none => []) }
-          let args := buildOf heap1 a
-          let called := passes h args          -- the `__check` wrapper: the user function runs only then
-          let ans := if called then ov.answer args else Option.none
-          let heap2 := heap1.modify a fun acc => { acc with captures := dictDel acc.captures e.capture }
-          (heap2, if called then evs ++ [Event.intercept acc.handler args ans] else evs,
-           match ans with | some r => some r | Option.none => reply)
-        | Option.none => st
-      | Option.none => st) (heap, [], Option.none)
-  let _ := tentative
-  match reply, overridable with
-  | some _, false => (heap, evs, .error (.overrideException varname))
-  | _, _ =>
-    let final : Option Val := match reply with
-      | some r => some { v := r, oid := 0 }
-      | Option.none => value
-    match final with
-    | Option.none => (heap, evs, .error (.pteraNameError varname))
-    | some v =>
-      let heap := ws.foldl (fun heap (p : El × Nat) => logValue handlers heap p.2 p.1 varname v) heap
-      let evs := ws.foldl (fun evs (p : El × Nat) =>
-        let (e, a) := p
-        match heap[a]? with
-        | Option.none => evs
-        | some acc =>
-          match handlers[acc.handler]? with
-          | some h =>
-            if e.hasTags && h.hasTrigger then
-              let args := buildOf heap a
-              if passes h args then evs ++ [Event.trigger acc.handler args] else evs
-            else evs
-          | Option.none => evs) evs
-      (heap, evs, .ok v)
+  match workingSet handlers heap it varname cat with
+  | (heap1, ws) =>
+    match interceptAll handlers heap1 ws varname value with
+    | (heap2, evs, reply) =>
+      match finalValue varname value reply overridable with
+      | .error e => (heap2, evs, .error e)
+      | .ok v =>
+        match logAll handlers heap2 ws varname v with
+        | heap3 => (heap3, evs ++ triggerAll handlers heap3 ws, .ok v)
 
 /-- `Total.leaves` (fuel bounds the depth) -/
 def leaves (heap : Heap) : Nat → Nat → List Nat
